@@ -1,5 +1,8 @@
 // World: qhasharr (C06, C07; container for C11, C12, C15)
 #include "wutil.h"
+#ifndef QSIM_STRUCT
+#define QSIM_STRUCT 1      // 0: this adapter is built without reading the slot layout (API-level oracles, guards and image byte-identity only)
+#endif
 #include <algorithm>
 extern "C" {
 #include "containers/qhasharr.h"
@@ -14,7 +17,12 @@ enum { HA_PUT, HA_GET, HA_REMOVE, HA_CLEAR, HA_SIZE, HA_WALK, HA_DEBUG, HA_REATT
 static const std::vector<std::string> HA_NAMES = {"put", "get", "remove", "clear", "size", "walk", "debug", "reattach", "second_handle", "relocate"};
 static const size_t GUARD = 64;
 static const int SLOT_DATA = Q_HASHARR_DATASIZE;
+#if QSIM_STRUCT
 static const int EXT_DATA = (int)sizeof(((qhasharr_slot_t *)0)->data.ext.data);
+#else
+// payload of a value extension block = slot size minus its 16 bytes of bookkeeping, from the documented size formula
+static const int EXT_DATA = (int)(qhasharr_calculate_memsize(2) - qhasharr_calculate_memsize(1)) - 16 - 2;
+#endif
 
 struct HaWorld;
 struct HaModel : Model {
@@ -74,7 +82,11 @@ struct HaWorld : World {
         switch (op.k) {
         case HA_PUT: { int api = (int)r.below(4); int klass = api >= 2 ? (r.chance(1, 2) ? 1 : 5) : (int)r.below(6); op.b = (int)r.below(1 << 20); op.c = gen_hvlen(r); if (klass == 1 || klass == 5) op.c = std::max(2, op.c); op.d = api | (klass << 2); break; }
         case HA_GET: op.d = (int)r.below(3); break;
-        case HA_REMOVE: op.d = (int)r.below(3); if (r.chance(1, 5)) { op.d = 3; op.b = (int)r.below(64); } break;
+        case HA_REMOVE: op.d = (int)r.below(3); if (r.chance(1, 5)) { op.d = 3; op.b = (int)r.below(64); }
+#if !QSIM_STRUCT
+            op.d &= 1;
+#endif
+            break;
         case HA_RELOCATE: op.a = (int)r.below(16); break;
         default: break;
         }
@@ -164,6 +176,9 @@ struct HaWorld : World {
     }
     void sut_abandon() override { for (int k = 0; k < 2; k++) { in[k].h[0] = in[k].h[1] = nullptr; in[k].arena = nullptr; } }
 
+#if !QSIM_STRUCT
+    int slot_of(Inst &, const Bytes &) { return -1; }
+#else
     qhasharr_slot_t *slots(Inst &i) { return (qhasharr_slot_t *)(i.mem() + sizeof(qhasharr_data_t)); }
     int slot_of(Inst &i, const Bytes &k) {
         unsigned char md5[16]; qhashmd5(k.data(), k.size(), md5);
@@ -172,6 +187,7 @@ struct HaWorld : World {
             if ((s[j].count > 0 || s[j].count == -1) && s[j].data.pair.namesize == (uint16_t)k.size() && !memcmp(s[j].data.pair.namemd5, md5, 16)) return j;
         return -1;
     }
+#endif
 
     // apply to one instance
     Result apply1(Inst &i, const Op &op, Ctx &x, bool primary) {
@@ -187,7 +203,11 @@ struct HaWorld : World {
             size_t osz = 0; void *old; { InSut s; old = t->get_by_obj(t, kb.p, kb.n, &osz); }
             Bytes oldv; if (old) { oldv.assign((char *)old, osz); free(old); }
             sim_fault_suspend(false);
+#if QSIM_STRUCT
             int before_home = primary ? (int)slots(i)[qhashmurmur3_32(k.data(), k.size()) % (uint32_t)maxslots].count : 0;
+#else
+            int before_home = 0;
+#endif
             bool ok;
             {
                 InSut s;
@@ -236,6 +256,9 @@ struct HaWorld : World {
         case HA_REMOVE: {
             int api = op.d & 3; if (api == 1 && !key_is_cstr(k)) api = 0;
             CallerBuf kb(k); bool ok;
+#if !QSIM_STRUCT
+            if (api >= 2) api = 0;
+#else
             if (api == 3) {
                 // any slot index in range: only an index that holds a key removes (exactly) that key; free slots and value
                 // extension blocks are refused without any effect
@@ -249,8 +272,12 @@ struct HaWorld : World {
                 if (idx < 0) return R_fail();
                 if (primary) { int c = slots(i)[idx].count; x.st.add(c > 1 ? "probe.removed_leading_promotes_collision_key" : c == -1 ? "probe.removed_collision_key" : "probe.removed_plain_key"); }
                 InSut s; ok = t->remove_by_idx(t, idx);
-            } else {
+            } else
+#endif
+            {
+#if QSIM_STRUCT
                 if (primary) { int idx = slot_of(i, k); if (idx >= 0) { int c = slots(i)[idx].count; x.st.add(c > 1 ? "probe.removed_leading_promotes_collision_key" : c == -1 ? "probe.removed_collision_key" : "probe.removed_plain_key"); } }
+#endif
                 InSut s; ok = api == 0 ? t->remove_by_obj(t, (const char *)kb.p, kb.n) : t->remove(t, (const char *)kb.p);
             }
             return ok ? R_ok() : R_fail();
@@ -349,6 +376,7 @@ struct HaWorld : World {
         return r;
     }
 
+#if QSIM_STRUCT
     void sut_prepare(Op &op) override {
         // remove_by_idx(arbitrary index): tell the model which key (if any) lives in that slot. c = key number + 1, 0 = none
         if (op.k != HA_REMOVE || (op.d & 3) != 3) return;
@@ -356,6 +384,7 @@ struct HaWorld : World {
         op.c = 0;
         for (size_t kn = 0; kn < keys.size(); kn++) if (slot_of(in[0], keys[kn]) == idx) { op.c = (int)kn + 1; break; }
     }
+#endif
     std::string sut_dump(Ctx &) override {
         Inst &i = in[0]; qhasharr_t *t = i.tbl();
         int mx = -1, us = -1, n;
@@ -373,6 +402,9 @@ struct HaWorld : World {
     }
 
     // ---- image well-formedness, written from the header's field meanings
+#if !QSIM_STRUCT
+    void sut_struct(Ctx &) override {}
+#else
     void sut_struct(Ctx &x) override {
         for (int k = 0; k < ninst; k++) check_image(in[k], x);
         x.st.add("struct.checks");
@@ -432,6 +464,7 @@ struct HaWorld : World {
         if (d->usedslots != used) bad("header usedslots " + num(d->usedslots) + " but " + num(used) + " slots are occupied");
         if (d->num != nkeys) bad("header num " + num(d->num) + " but " + num(nkeys) + " keys are stored");
     }
+#endif
 
     std::string render(const Op &op) const override {
         char b[220];
